@@ -11,6 +11,11 @@ the receive quota is exhausted; an outbound QoS>0 message is written only while 
 Known findings F11a–c (recorded): `processPubrec` decrements the *receive* quota and
 `processPubrel`/`processPubcomp` increment both quotas (`C11_pubcomp_leaks_counterexample`); a
 resumed session gets full quotas and all stored messages resent at once.
+
+History level (second half of this file, `Mochi/Lemmas/BrokerQuota.lean`): the quotas as ACCOUNTING invariants
+(`C11_recv_quota_accounting_partial`, `C11_send_quota_accounting_partial`, `C11_no_send_beyond_quota_partial`,
+`C11_0x93_only_at_limit_partial`) on a decidable class of histories, with one `decide` counterexample per excluded
+class — these pin F11a–c, F09 and the quota leaks of the error / expiry paths down exactly.
 -/
 namespace Mochi.Broker
 open Mochi.Topics
